@@ -16,6 +16,7 @@ def main(tier):
     rep.attempt(frame.arc_segment, P, rep)           # ... and one arc segment the circular construction
     rep.attempt(frame.straight_segment, P, rep)      # one straight segment of the slab frame equals the planar construction
     rep.attempt(segments.segment_blend, P, rep)      # thickness / truncation between the two ends of a segment follow the fraction along the segment
+    rep.attempt(dep.bbox_extremes, P, rep)           # membership is tested inside the box spanned by the extreme trench coordinates
     dep.culling(P, rep)      # membership iff the distances are in range: the shortcuts in front must not discard members
     dep.accumulators(P, rep)
     rep.assumptions.append("of Utilities::distance_point_from_curved_planes the per-segment step (straight line / circular arc: end point, attribution "
